@@ -36,4 +36,8 @@ class EqValue(GenericValue):
         return self._file._value_to_code(self._new_value)
 
     def _get_changes(self) -> Iterator[Change]:
+        if self._new_value is undefined:
+            # only compared inside compare_context() (e.g. while a list is aligned):
+            # nothing was recorded for this snapshot
+            return iter([])
         return iter(self._changes)
